@@ -13,7 +13,7 @@ import ast
 import re as _re
 
 from .model import PKG, AnalysisError, Program, is_property, norm
-from .values import (ArgsView, Bound, ClsRef, Const, Dct, EnumV, ExcV, Ext, Func, Gen, Lam, Lst, NodeV, Obj, Part, Seq, Str,
+from .values import (ArgsView, Bound, ClsRef, Const, Dct, EnumV, ExcV, Ext, FlagV, Func, Gen, Lam, Lst, NodeV, Obj, Part, Seq, Str,
                      Sym, Tpl, Tup, Val, mkstr, tagof)
 
 
@@ -189,6 +189,8 @@ class Interp:
     def truth(self, v) -> bool:
         if isinstance(v, Const):
             return bool(v.v)
+        if isinstance(v, FlagV):
+            return bool(v.members)
         if isinstance(v, Str):
             return True if v.nonempty() else self.decide(f"truthy({v.tag})")
         if isinstance(v, Sym):
@@ -434,6 +436,8 @@ class Interp:
             return Const(not self.truth(v))
         if isinstance(e.op, ast.USub) and isinstance(v, Const) and isinstance(v.v, (int, float)):
             return Const(-v.v)
+        if isinstance(e.op, ast.Invert) and isinstance(v, FlagV):
+            return FlagV(v.cls, set(v.universe) - v.members, v.universe)
         return Sym(f"{type(e.op).__name__}({tagof(v)})", origin=("unop", type(e.op).__name__, v))
 
     def ev_BoolOp(self, e, env):
@@ -461,6 +465,9 @@ class Interp:
 
     def ev_BinOp(self, e, env):
         l, r = self.ev(e.left, env), self.ev(e.right, env)
+        if isinstance(l, FlagV) and isinstance(r, FlagV) and l.cls == r.cls and isinstance(e.op, (ast.BitOr, ast.BitAnd, ast.BitXor)):
+            m_ = l.members | r.members if isinstance(e.op, ast.BitOr) else l.members & r.members if isinstance(e.op, ast.BitAnd) else l.members ^ r.members
+            return FlagV(l.cls, m_, l.universe)
         if isinstance(e.op, ast.Add):
             if isinstance(l, (Const, Str, Sym)) and isinstance(r, (Const, Str, Sym)):
                 if isinstance(l, Const) and isinstance(r, Const):
@@ -521,6 +528,8 @@ class Interp:
                 res = l.dotted == r.dotted  # the same class / module object
             elif isinstance(l, EnumV) and isinstance(r, EnumV):
                 res = l.dotted == r.dotted
+            elif isinstance(l, FlagV) and isinstance(r, FlagV):
+                res = l.cls == r.cls and l.members == r.members
             elif isinstance(l, Func) and isinstance(r, Func):
                 res = (l.mod, l.qual) == (r.mod, r.qual) and l.self_val is r.self_val
             else:
@@ -529,6 +538,8 @@ class Interp:
         if isinstance(op, (ast.Eq, ast.NotEq)):
             res = self.equal(l, r)
             return res != neg
+        if isinstance(op, (ast.In, ast.NotIn)) and isinstance(l, FlagV) and isinstance(r, FlagV):
+            return (l.cls == r.cls and l.members <= r.members) != neg  # Flag containment
         if isinstance(op, (ast.In, ast.NotIn)):
             if isinstance(r, (Tup, Lst)) and not getattr(r, "open", False):
                 res = False
@@ -559,6 +570,8 @@ class Interp:
             return l.v == r.v
         if isinstance(l, EnumV) and isinstance(r, EnumV):
             return l.dotted == r.dotted
+        if isinstance(l, FlagV) and isinstance(r, FlagV):
+            return l.cls == r.cls and l.members == r.members
         if isinstance(l, (ClsRef, Ext)) and isinstance(r, (ClsRef, Ext)):
             return l.dotted == r.dotted
         if isinstance(l, (EnumV, ClsRef)) and isinstance(r, Const) or isinstance(r, (EnumV, ClsRef)) and isinstance(l, Const):
@@ -813,8 +826,11 @@ class Interp:
         if isinstance(base, Ext):
             return self.ext_value(base.dotted + "." + a)
         if isinstance(base, ClsRef):
-            if base.dotted.startswith(PKG + "."):
+            if base.dotted.startswith(PKG + ".") and base.dotted.count(".") == 2:
                 _, mod, cls = base.dotted.split(".")
+                ev_ = self._enum_member(mod, cls, a)
+                if ev_ is not None:
+                    return ev_
                 fn = self.find_method(mod, cls, a)
                 if fn is not None:
                     return Func(fn[0], fn[1], fn[2], self_val=base if _is_classmethod(fn[2]) else None)
@@ -1175,6 +1191,33 @@ class Interp:
         if d.startswith(("duckdb.", "snowflake.", "builtins.")) or d[d.rfind(".") + 1:].endswith(("Error", "Exception")):
             return ExcV(d, kwargs, args)
         return Sym(f"{d}()@{self.siteid(site)}", origin=("call", d, args, kwargs))
+
+    def _enum_member(self, mod: str, cls: str, name: str):
+        """member of a package-defined enum class: an EnumV (identity by name), or a FlagV for enum.Flag / IntFlag classes"""
+        cdef = self.prog.modules[mod].classes.get(cls) if mod in self.prog.modules else None
+        if cdef is None:
+            return None
+        kinds = {norm(b).split(".")[-1] for b in cdef.bases}
+        if not kinds & {"Enum", "IntEnum", "StrEnum", "Flag", "IntFlag"}:
+            return None
+        members = []
+        for st in cdef.body:
+            tgt = st.targets[0] if isinstance(st, ast.Assign) and len(st.targets) == 1 else None
+            if isinstance(tgt, ast.Name) and not tgt.id.startswith("_"):
+                members.append((tgt.id, st.value))
+        if name not in {m_ for m_, _ in members}:
+            return None
+        if kinds & {"Flag", "IntFlag"}:
+            zero = {m_ for m_, v_ in members if isinstance(v_, ast.Constant) and v_.value == 0}
+            universe = [m_ for m_, v_ in members if m_ not in zero and not isinstance(v_, ast.BinOp)]
+            val = dict(members)[name]
+            if name in zero:
+                return FlagV(cls, (), universe)
+            if isinstance(val, ast.BinOp):  # an alias member: A | B
+                names = {n_.id if isinstance(n_, ast.Name) else n_.attr for n_ in ast.walk(val) if isinstance(n_, (ast.Name, ast.Attribute))}
+                return FlagV(cls, names & set(universe), universe)
+            return FlagV(cls, (name,), universe)
+        return EnumV(f"{cls}.{name}")
 
     def class_attr(self, mod: str, cls: str, name: str):
         """value of a class-level assignment `name = ...` / `name: T = ...` (evaluated once per run in the module's environment)"""
